@@ -11,6 +11,12 @@
 (* Named deviation "stale_sys_timer": entries of the syscall timer heap are   *)
 (* not removed when the coroutine is woken by a callback, so an old entry can *)
 (* time out a later wait of the same coroutine early (code as it is).         *)
+(* A cancel request can also be made from inside a run slice - by the running *)
+(* coroutine for itself or for a waiting one (another thread's request that   *)
+(* arrives during the slice looks the same): Iter's parameter `sc`.           *)
+(* Named deviation "cancel_forgotten_on_yield": the request for the coroutine *)
+(* that has just been resumed is erased from the cancel set when its slice    *)
+(* ends (seeded/C10-2), so a request made during the slice is lost.           *)
 EXTENDS Naturals, Integers, Sequences, FiniteSets, TLC, Json
 
 CONSTANTS NCo, MaxSteps, MaxT, MaxOps, Deviations
@@ -18,6 +24,7 @@ CONSTANTS NCo, MaxSteps, MaxT, MaxOps, Deviations
 Co == 1..NCo
 Prio == [c \in Co |-> IF c = 2 THEN 1 ELSE 0]   \* coroutine 2 has the lower priority
 Stale == "stale_sys_timer" \in Deviations
+Forget == "cancel_forgotten_on_yield" \in Deviations
 
 VARIABLES cs,        \* [Co -> "none" | "ready" | "suspend" | "syscall" | "done" | "dropped"]
           wake,      \* [Co -> wake-up time of the wait in progress, -1 if none]
@@ -79,7 +86,7 @@ DueSysEntries == {e \in sysHeap : e[1] <= now}
 DueSys == {c \in Co : cs[c] = "syscall" /\ \E e \in DueSysEntries : e[2] = c}
 
 \* one iteration of the scheduling loop; `step` is the body's next step if a coroutine is resumed
-Iter(step, d) ==
+Iter(step, d, sc) ==
   /\ Go /\ inPass
   /\ LET cs1 == [c \in Co |-> IF c \in DueSusp \cup DueSys THEN "ready" ELSE cs[c]]
          how1 == [c \in Co |-> IF c \in DueSusp THEN "timer" ELSE IF c \in DueSys THEN "timeout" ELSE how[c]]
@@ -87,7 +94,7 @@ Iter(step, d) ==
          rq1 == AppendAll(AppendAll(ready, DueSusp), DueSys)
      IN IF rq1 = <<>>
         THEN \* nothing to run: the pass returns (quiescent)
-             /\ step = "none" /\ d = 0
+             /\ step = "none" /\ d = 0 /\ sc = 0
              /\ inPass' = FALSE
              /\ viol' = IF \E c \in Co : cs1[c] \in {"suspend", "syscall"} /\ wake[c] <= passStart /\ ~cancelled[c]
                         THEN "missed_wake" ELSE viol
@@ -97,7 +104,7 @@ Iter(step, d) ==
         ELSE LET i == BestIdx(rq1) c == rq1[i] rq2 == Remove(rq1, i) IN
              IF c \in cancelSet
              THEN \* dropped without being resumed
-                  /\ step = "none" /\ d = 0
+                  /\ step = "none" /\ d = 0 /\ sc = 0
                   /\ cancelSet' = cancelSet \ {c}
                   /\ cs' = [cs1 EXCEPT ![c] = "dropped"] /\ how' = how1 /\ sysHeap' = heap1 /\ ready' = rq2
                   /\ hist' = hist
@@ -110,7 +117,14 @@ Iter(step, d) ==
                   /\ viol' = IF cancelled[c] THEN "resumed_after_cancel"
                              ELSE IF how1[c] \in {"timer", "timeout"} /\ now < wake[c] THEN "early_wake"
                              ELSE viol
-                  /\ hist' = Append(hist, [a |-> "body", c |-> c, step |-> step, d |-> d])
+                  \* a cancel request made during the slice, before the step: for itself, or for a waiting one
+                  /\ (sc # 0 => /\ sc \notin cancelSet
+                                /\ (sc = c \/ cs1[sc] \in {"ready", "suspend", "syscall"}))
+                  /\ cancelSet' = IF Forget THEN (cancelSet \cup (IF sc = 0 THEN {} ELSE {sc})) \ {c}
+                                  ELSE cancelSet \cup (IF sc = 0 THEN {} ELSE {sc})
+                  /\ cancelled' = IF sc # 0 /\ ~(sc = c /\ step \in {"return", "panic"})
+                                  THEN [cancelled EXCEPT ![sc] = TRUE] ELSE cancelled
+                  /\ hist' = Append(hist, [a |-> "body", c |-> c, step |-> step, d |-> d, cancel |-> sc])
                   /\ CASE step = "suspend" ->
                             /\ cs' = [cs1 EXCEPT ![c] = "ready"] /\ how' = [how1 EXCEPT ![c] = "yield"]
                             /\ ready' = Append(rq2, c) /\ wake' = [wake EXCEPT ![c] = -1]
@@ -127,12 +141,12 @@ Iter(step, d) ==
                             /\ cs' = [cs1 EXCEPT ![c] = "done"] /\ how' = how1
                             /\ ready' = rq2 /\ wake' = [wake EXCEPT ![c] = -1]
                             /\ sysHeap' = heap1 /\ reports' = [reports EXCEPT ![c] = @ + 1]
-                  /\ UNCHANGED <<cancelSet, cancelled, now, inPass, passStart>>
+                  /\ UNCHANGED <<now, inPass, passStart>>
 
 Next ==
   \/ \E c \in Co : Submit(c) \/ CancelReq(c) \/ TryResume(c)
   \/ Tick \/ PassBegin
-  \/ \E step \in {"none", "suspend", "delay", "park", "return", "panic"}, d \in 0..2 : Iter(step, d)
+  \/ \E step \in {"none", "suspend", "delay", "park", "return", "panic"}, d \in 0..2, sc \in 0..NCo : Iter(step, d, sc)
 Spec == Init /\ [][Next]_vars
 
 ------------------------------------------------------------------------------
